@@ -6,6 +6,7 @@ import (
 	"fmt"
 	"os"
 	"path/filepath"
+	"sort"
 	"sync"
 	"sync/atomic"
 	"time"
@@ -505,31 +506,8 @@ func (m *Manager) ReloadSSTables() error {
 	// Clear the list
 	m.sstables = m.sstables[:0]
 
-	// Find all SSTable files
-	entries, err := os.ReadDir(m.sstableDir)
-	if err != nil {
-		if os.IsNotExist(err) {
-			return nil // Directory doesn't exist yet
-		}
-		return fmt.Errorf("failed to read SSTable directory: %w", err)
-	}
-
-	// Open all SSTable files
-	for _, entry := range entries {
-		if entry.IsDir() || filepath.Ext(entry.Name()) != ".sst" {
-			continue // Skip directories and non-SSTable files
-		}
-
-		path := filepath.Join(m.sstableDir, entry.Name())
-		reader, err := sstable.OpenReader(path)
-		if err != nil {
-			return fmt.Errorf("failed to open SSTable %s: %w", path, err)
-		}
-
-		m.sstables = append(m.sstables, reader)
-	}
-
-	return nil
+	// Open all SSTable files in recency order
+	return m.loadSSTables()
 }
 
 // RotateWAL creates a new WAL file and closes the old one
@@ -828,14 +806,43 @@ func (m *Manager) loadSSTables() error {
 		return fmt.Errorf("failed to read SSTable directory: %w", err)
 	}
 
-	// Loop through all entries
+	// Collect the SSTable files together with the fields encoded in their names
+	type sstFile struct {
+		name      string
+		level     int
+		sequence  uint64
+		timestamp int64
+	}
+	var files []sstFile
 	for _, entry := range entries {
 		if entry.IsDir() || filepath.Ext(entry.Name()) != ".sst" {
 			continue // Skip directories and non-SSTable files
 		}
 
+		f := sstFile{name: entry.Name()}
+		if n, err := fmt.Sscanf(entry.Name(), sstableFilenameFormat,
+			&f.level, &f.sequence, &f.timestamp); n != 3 || err != nil {
+			continue // Skip files that don't match our naming pattern
+		}
+		files = append(files, f)
+	}
+
+	// m.sstables is searched from the end, so order the files from oldest to
+	// newest: deeper levels hold older data, and within a level the creation
+	// timestamp decides (the sequence restarts in every compaction output).
+	sort.Slice(files, func(i, j int) bool {
+		if files[i].level != files[j].level {
+			return files[i].level > files[j].level
+		}
+		if files[i].timestamp != files[j].timestamp {
+			return files[i].timestamp < files[j].timestamp
+		}
+		return files[i].sequence < files[j].sequence
+	})
+
+	for _, f := range files {
 		// Open the SSTable
-		path := filepath.Join(m.sstableDir, entry.Name())
+		path := filepath.Join(m.sstableDir, f.name)
 		reader, err := sstable.OpenReader(path)
 		if err != nil {
 			return fmt.Errorf("failed to open SSTable %s: %w", path, err)
@@ -843,6 +850,11 @@ func (m *Manager) loadSSTables() error {
 
 		// Add to the list
 		m.sstables = append(m.sstables, reader)
+
+		// Continue file numbering after the highest sequence on disk
+		if f.sequence >= atomic.LoadUint64(&m.nextFileNum) {
+			atomic.StoreUint64(&m.nextFileNum, f.sequence+1)
+		}
 	}
 
 	return nil
